@@ -217,7 +217,23 @@ def run(ctx: Ctx, tier: str) -> Result:
 
     # ---------------- ACT
     ac_calls = [c for c in t.calls_in(worker) if any(x.name == "action_context" for x in t.resolve_call(c, worker).repo)]
-    need(ac_calls, "worker: no action_context() call")
+    if not ac_calls:
+        # the action loop was moved into a helper that could not be read back in place (it leaves the loop on some path): a way
+        # out of the loop other than its end skips the actions of the tracepoints listed after the current one
+        for c0 in t.calls_in(worker):
+            for h_ in t.resolve_call(c0, worker).repo:
+                if h_.cls is not worker.cls:
+                    continue
+                hac = [c for c in t.calls_in(h_) if any(x.name == "action_context" for x in t.resolve_call(c, h_).repo)]
+                for c in hac:
+                    for lp_ in [l for l in paths.enclosing_loops(p, c, h_) if isinstance(l, ast.For)][:1]:
+                        outs = [n for n in ast.walk(lp_) if isinstance(n, (ast.Return, ast.Break)) and not any(isinstance(a_, ast.ExceptHandler) for a_ in p.ancestors(n, stop=lp_))]
+                        for n in outs[:1]:
+                            res.fail(Finding("C03.ACT", h_.qname, n, h_.loc(n), "`%s` leaves the loop over the matched actions: when it is taken for one tracepoint (not allowed to fire just now) the "
+                                             "tracepoints listed after it on the same location do not act although they are due" % norm(n)[:40]))
+    need(ac_calls or res.findings, "worker: no action_context() call")
+    if not ac_calls:
+        return res
     macc = None
     for n in t.nodes_in(worker, ast.Assign):
         if n.value is mcall and isinstance(n.targets[0], ast.Name):
